@@ -723,7 +723,7 @@ def _shadow_ops(case):
             flags.append("AssertionError")
             continue
         if o[0] == "new":
-            store.append(dict(x=[], y=[], id=[], info=[], k=o[1], cls=o[2]))
+            store.append(dict(x=[], y=[], id=[], info=[], k=o[1], cls=o[2], info_ok=True))
             flags.append(True)
         elif o[0] == "call":
             m = store[o[1]]
@@ -738,19 +738,22 @@ def _shadow_ops(case):
                 flags.append("ValueError")
                 continue
             s = slice(o[2], o[3], o[4])
-            store.append(dict(x=m["x"][s], y=m["y"][s], id=m["id"][s], info=[], k=m["k"], cls=m["cls"]))
+            store.append(dict(x=m["x"][s], y=m["y"][s], id=m["id"][s], info=[], k=m["k"], cls=m["cls"], info_ok=False))
             flags.append(True)
         elif o[0] == "add":
             a, b = store[o[1]], store[o[2]]
-            store.append(dict(x=a["x"] + b["x"], y=a["y"] + b["y"], id=a["id"] + b["id"], info=a["info"] + b["info"], k=a["k"], cls=a["cls"]))
+            store.append(dict(x=a["x"] + b["x"], y=a["y"] + b["y"], id=a["id"] + b["id"], info=a["info"] + b["info"], k=a["k"], cls=a["cls"],
+                              info_ok=a["info_ok"] and b["info_ok"]))
             flags.append(True)
         elif o[0] == "extend":
             a, b = store[o[1]], store[o[2]]
             a["x"] = a["x"] + b["x"]; a["y"] = a["y"] + b["y"]; a["id"] = a["id"] + b["id"]; a["info"] = a["info"] + b["info"]
+            a["info_ok"] = a["info_ok"] and b["info_ok"]
             flags.append(True)
         elif o[0] == "prepend":
             a, b = store[o[1]], store[o[2]]
             a["x"] = b["x"] + a["x"]; a["y"] = b["y"] + a["y"]; a["id"] = b["id"] + a["id"]; a["info"] = b["info"] + a["info"]
+            a["info_ok"] = a["info_ok"] and b["info_ok"]
             flags.append(True)
     return store, flags
 
@@ -775,7 +778,7 @@ def _oracle_ops(case, obs):
             out.append(_fail("y_roundtrip_k_transparent", "Monitor.y", "value", dict(monitor=j, got=o["y"], want=s["y"], k=s["k"])))
         if o["id"] != s["id"]:
             out.append(_fail("id_roundtrip", "Monitor.id", "value", dict(monitor=j, got=o["id"], want=s["id"])))
-        if o["info"] != s["info"]:
+        if s["info_ok"] and o["info"] != s["info"]:
             out.append(_fail("info", "Monitor.info", "value", dict(monitor=j, got=o["info"], want=s["info"])))
         if not tree_same(o["k"], s["k"], lambda a, b: float(a) == float(b)):
             out.append(_fail("k_kept", "Monitor.k", "value", dict(monitor=j, got=o["k"], want=s["k"])))
@@ -1048,6 +1051,11 @@ Definition mon_is (m : mon) (x : list pv) (y : list (cost NumF)) (id : list (opt
                   (k : option PrimFloat.float) (n : nat) : bool :=
   leqb pv_eqb (get_x m) x && leqb cost_eqb (get_y m) y && leqb (oeqb Z.eqb) (get_id m) id &&
   leqb Z.eqb (minfo m) inf && oeqb PrimFloat.eqb (mk m) k && Nat.eqb (mlen m) n.
+(* the info list is not compared downstream of a slice (whether a slice keeps it is not part of the property) *)
+Definition mon_is' (m : mon) (x : list pv) (y : list (cost NumF)) (id : list (option Z))
+                  (k : option PrimFloat.float) (n : nat) : bool :=
+  leqb pv_eqb (get_x m) x && leqb cost_eqb (get_y m) y && leqb (oeqb Z.eqb) (get_id m) id &&
+  oeqb PrimFloat.eqb (mk m) k && Nat.eqb (mlen m) n.
 Definition q_is (r : option (pv * cost NumF)) (e : option (pv * cost NumF)) : bool :=
   oeqb (fun a b => pv_eqb (fst a) (fst b) && cost_eqb (snd a) (snd b)) r e.
 Definition oNew (k : option float) : op NumF pv Z Z := @ONew NumF pv Z Z k.
@@ -1120,7 +1128,13 @@ def _terms_ops(case, obs):
     flags = lst([blit(f is True) for f in obs["flags"]])
     T.append("leqb Bool.eqb (snd (run0 %s)) %s" % (opsl, flags))
     T.append("Nat.eqb (List.length (fst (run0 %s))) %s" % (opsl, natlit(len(obs["store"]))))
+    shadow = _shadow_ops(case)[0]
     for j, m in enumerate(obs["store"]):
+        if j < len(shadow) and not shadow[j]["info_ok"]:
+            T.append("mon_is' (nthm (fst (run0 %s)) %s) (%s : list pv) (%s : list (cost NumF)) (%s : list (option Z)) %s %s" % (
+                opsl, natlit(j), lst([_pv(x) for x in m["x"]]), lst([_cost(y) for y in m["y"]]), lst([_oz(i) for i in m["id"]]),
+                _kopt(m["k"]), natlit(m["len"])))
+            continue
         info = lst([zlit(int(s[3:])) for s in m["info"]])
         T.append("mon_is (nthm (fst (run0 %s)) %s) (%s : list pv) (%s : list (cost NumF)) (%s : list (option Z)) (%s : list Z) %s %s" % (
             opsl, natlit(j), lst([_pv(x) for x in m["x"]]), lst([_cost(y) for y in m["y"]]), lst([_oz(i) for i in m["id"]]),
